@@ -656,8 +656,17 @@ func mapDecodeBytes(mapVal any, ts TypeSettings) ([]byte, error) {
 // hasKeyOfMember returns whether the map holds an entry that belongs to an inlined member of the given type: for a
 // struct at least one key of its fields (fields of embedded and of inlined structs included) or its type code, for an
 // interface the type code of the implementation. The keys are those that mapEncodeStructFields writes.
-func (api *API) hasKeyOfMember(m map[string]any, memberType reflect.Type) bool {
+func (api *API) hasKeyOfMember(m map[string]any, memberType reflect.Type, visitedTypes ...reflect.Type) bool {
 	memberType = DeRefPointer(memberType)
+
+	// a struct that inlines itself has no keys beyond those of the first round
+	for _, visitedType := range visitedTypes {
+		if visitedType == memberType {
+			return false
+		}
+	}
+	visitedTypes = append(visitedTypes, memberType)
+
 	switch {
 	case memberType.Kind() == reflect.Interface:
 		_, has := m[keyType]
@@ -685,7 +694,7 @@ func (api *API) hasKeyOfMember(m map[string]any, memberType reflect.Type) bool {
 		switch {
 		case sField.isEmbedded && !sField.settings.inlined:
 			// the fields of an embedded struct are spliced in (a key of the embedded field itself is not used)
-			if fieldType.Kind() != reflect.Struct || api.hasKeyOfMember(m, fieldType) {
+			if fieldType.Kind() != reflect.Struct || api.hasKeyOfMember(m, fieldType, visitedTypes...) {
 				return true
 			}
 		case sField.settings.ts.fieldKey != nil:
@@ -693,7 +702,7 @@ func (api *API) hasKeyOfMember(m map[string]any, memberType reflect.Type) bool {
 				return true
 			}
 		case sField.settings.inlined && fieldType.Kind() != reflect.Map:
-			if api.hasKeyOfMember(m, fieldType) {
+			if api.hasKeyOfMember(m, fieldType, visitedTypes...) {
 				return true
 			}
 		default:
